@@ -405,7 +405,7 @@ def restore (s : FS) (oid serial : Nat) (data : Option Bytes) (prevTxn : Option 
       | none => .ok 0
       | some pt =>
         match txnFind pt s.log with
-        | none => .error .undoError
+        | none => .ok 0                                      -- just a hint: UndoError is swallowed
         | some (t, older) => dataFind (logEnd older + t.hdrLen) t.recs oid data
     match prevPos with
     | .error e => (s, .error e)
